@@ -10,6 +10,7 @@ def main(argv=None):
     c = sub.add_parser("check")
     c.add_argument("prop")
     c.add_argument("--tier", default=os.environ.get("VERIF_TIER", "quick"), choices=["quick", "thorough"])
+    c.add_argument("--no-write", action="store_true", help="do not rewrite evidence/ and reports/ (used when a scratch tree is analysed through WSVERIF_REPO)")
     e = sub.add_parser("explain")
     e.add_argument("path")
     sub.add_parser("selfcheck")
@@ -22,7 +23,7 @@ def main(argv=None):
     try:
         from .harness import run_check
         if args.cmd == "check":
-            return run_check(args.prop, args.tier)
+            return run_check(args.prop, args.tier, write=not args.no_write)
         if args.cmd == "all":
             from . import props  # noqa
             from .harness import RULES
